@@ -1,5 +1,6 @@
 import RimeModel.C07.CompleteLemmas
 import RimeModel.C07.TransLemmas
+import RimeModel.C07.LongLemmas
 /-!
 C07 — candidates for an input are exactly the dictionary entries that its code spells.  Property theorems only.
 
@@ -57,6 +58,27 @@ theorem match_extra_farthest (g : Graph) (hfw : g.Forward) (extra : List Nat) (d
     (h : Spells g extra pos e') :
     ∃ d e, matchExtra g false extra depth pos = some (d, e) ∧ e' ≤ e :=
   matchExtra_farthest g hfw extra depth pos e' h
+
+/-- **long_entry_listed_at_farthest_match** — completeness beyond the index depth: if the graph spells the first
+three syllables `[a, b, c]` of a code from `start` to a position `m` that has outgoing edges, the table can follow
+them and its tail page there holds the entry `le`, and the graph spells the rest of the code (`le.extra`) from
+`m` to `e'`, then `lookup_table` produces an exact one-entry chunk for that entry with the full code, filed under
+an end position at least `e'` (the farthest match). -/
+theorem long_entry_listed_at_farthest_match (t : Table) (g : Graph) (hfw : g.Forward) (start : Nat) (ic : Dy)
+    (a b c m : Nat) (hstart : start < g.interpLen) (hs3 : Spells g [a, b, c] start m) (hm : m < g.interpLen)
+    (hf : Followable t [a, b, c]) (idx : List (Nat × List Edge)) (hi : g.indexAt m = some idx)
+    (es : List (LongEntry Dy)) (ht : tailOf t a b c = some es) (le : LongEntry Dy) (hle : le ∈ es) (e' : Nat)
+    (hse : Spells g le.extra m e') :
+    ∃ kc ∈ lookupTable t g start false ic, kc.2.code = [a, b, c] ++ le.extra ∧ kc.2.entries = [le.entry] ∧
+      kc.2.matching = kc.2.code.length ∧ e' ≤ kc.1 := by
+  obtain ⟨q, hq, hqc⟩ := reach t g start 3 [a, b, c] m rfl hs3 hm (by simp [indexDepth]) hf
+  have hne : es ≠ [] := fun h => by rw [h] at hle; simp at hle
+  have hem := tail_emission t g (m, q) a b c hqc idx hi es ht hne
+  have hout : (m, (⟨[a, b, c], .tail es, q.back⟩ : Accessor)) ∈ roundOutput t g start 3 := by
+    simp only [roundOutput, round, List.mem_flatMap, List.mem_map]
+    exact ⟨_, ⟨(m, q), hq, rfl⟩, hem⟩
+  obtain ⟨ems, hqe, hmem⟩ := query_some_of_mem t g start hstart 3 (by omega) _ hout
+  exact long_chunk t g hfw start ic ems hqe m a b c es q.back hmem le hle e' hse
 
 /-- **iterator_perm** — draining the iterator yields every entry of every chunk exactly once. -/
 theorem iterator_perm (it : Iter) (hne : NoEmpty it.rest) :
